@@ -17,6 +17,10 @@ MINI = {
     "merge": ([IN["a"], ("decl", "Signal", "k", ("lit", "signal-A", I(5))), ("decl", "Signal", "r", B("+", V("k"), V("a")))], ["a"], ["r"], "value"),
     "fanout": ([IN["a"], ("decl", "Signal", "t1", B("+", V("a"), I(1))), ("decl", "Signal", "r", B("*", V("t1"), I(2))),
                 ("decl", "Signal", "r2", B("*", V("t1"), I(3))), ("decl", "Signal", "r3", B(">", V("t1"), I(2)))], ["a"], ["r", "r2", "r3"], "value"),
+    # three same-type producers that meet pairwise: a wire-colour conflict two colours cannot solve
+    "triangle": ([IN["a"], ("decl", "Signal", "t1", B("*", V("a"), I(2))), ("decl", "Signal", "t2", B("*", V("a"), I(3))),
+                  ("decl", "Signal", "t3", B("*", V("a"), I(5))), ("decl", "Signal", "r", B("-", V("t1"), V("t2"))),
+                  ("decl", "Signal", "r2", B("-", V("t2"), V("t3"))), ("decl", "Signal", "r3", B("-", V("t1"), V("t3")))], ["a"], ["r", "r2", "r3"], "value"),
     "each": ([IN["x"], IN["y"], ("decl", "Bundle", "bb", BUN), ("decl", "Bundle", "r", B("*", V("bb"), I(2)))], ["x", "y"], ["r"], "signals"),
     "filter": ([IN["x"], IN["y"], ("decl", "Bundle", "bb", BUN), ("decl", "Bundle", "r", ("cond", B(">", V("bb"), I(1)), V("bb")))], ["x", "y"], ["r"], "signals"),
     "anyall": ([IN["x"], IN["y"], ("decl", "Bundle", "bb", BUN), ("decl", "Signal", "r", B(">", ("any", V("bb")), I(2)))], ["x", "y"], ["r"], "value"),
@@ -78,7 +82,7 @@ class C12(core.Check):
     pid = "C12"
     level = "model_checking"
     timeout = 400
-    rule = ("all ordered pairs (P, Q) of a 19-program corpus (incl. a consumer 40 tiles away, also built with medium poles / substations) that reuse the same signal names and constants, names made "
+    rule = ("all ordered pairs (P, Q) of a 20-program corpus (incl. three same-type producers meeting pairwise, a consumer 40 tiles away, also built with medium poles / substations) that reuse the same signal names and constants, names made "
             "disjoint, x order-preserving interleavings of their statements (thorough tier: all of them for a pair with at most 200, "
             "else 200 spread evenly over the lexicographic enumeration - only pairs among the 6- and 9-statement "
             "far-entity programs (and pairs of 5-statement ones) exceed 200; quick tier: 6 spread over the whole set); P's outputs and entity conditions in build(P;Q) are compared with "
